@@ -26,3 +26,47 @@ Proof.
   intros g h Hg. apply regroup_concat; [exact Hg|].
   unfold GV.Spec.C09_spec.c09_model. rewrite drun_length. lia.
 Qed.
+
+(* ---- the director as the runtime schedules it: lagging loses whole groups of signals, never the verdicts elected
+   from the signals that were processed ---- *)
+Lemma drun_st_snd : forall h s, snd (drun_st s h) = drun s h.
+Proof.
+  induction h as [|sg t IH]; intros s; [reflexivity|].
+  cbn [drun_st drun]. destruct (dstep s sg) as [s' out]. specialize (IH s').
+  destruct (drun_st s' t) as [s'' outs]. cbn [snd] in *. rewrite IH. reflexivity.
+Qed.
+
+Lemma drun_st_app : forall a b s,
+  drun_st s (a ++ b) =
+  (fst (drun_st (fst (drun_st s a)) b), snd (drun_st s a) ++ snd (drun_st (fst (drun_st s a)) b)).
+Proof.
+  induction a as [|x a IH]; intros b s.
+  - cbn [app drun_st fst snd]. destruct (drun_st s b); reflexivity.
+  - cbn [app drun_st]. destruct (dstep s x) as [s' out]. rewrite IH.
+    destruct (drun_st s' a) as [s'' outs]. cbn [fst snd]. reflexivity.
+Qed.
+
+(* the signals that are processed: the groups (sizes 3, g, 3, g, ...) of at most 16 *)
+Fixpoint kept (fuel : nat) (small : bool) (g : nat) (h : list dsignal) : list dsignal :=
+  match fuel with
+  | O => []
+  | S f => match h with
+           | [] => []
+           | _ => let n := if small then 3%nat else g in
+                  let grp := firstn n h in
+                  (if Nat.leb (length grp) 16 then grp else []) ++ kept f (negb small) g (skipn n h)
+           end
+  end.
+
+Theorem lag_loses_groups_not_verdicts : forall fuel s small g h,
+  concat (drun_groups fuel s small g h) = concat (drun s (kept fuel small g h)).
+Proof.
+  induction fuel as [|f IH]; intros s small g h; [reflexivity|].
+  cbn [drun_groups kept]. destruct h as [|x h']; [reflexivity|].
+  set (n := if small then 3%nat else g). set (grp := firstn n (x :: h')).
+  destruct (Nat.leb (length grp) 16).
+  - destruct (drun_st s grp) as [s' outs] eqn:E. cbn [concat].
+    rewrite IH. rewrite <- (drun_st_snd (grp ++ _) s), drun_st_app. cbn [snd]. rewrite E. cbn [fst snd].
+    rewrite concat_app, drun_st_snd. reflexivity.
+  - cbn [concat app]. apply IH.
+Qed.
